@@ -2912,7 +2912,13 @@ impl<'a, S: RowSource> Executor<'a> for DynamicExecutor<'a, S> {
                         };
 
                         for (idx, agg_fn) in state.aggregates.iter().enumerate() {
-                            entry.1[idx].update(agg_fn, &row)?;
+                            match state.aggregate_args.get(idx).and_then(|a| a.as_ref()) {
+                                Some(arg) => {
+                                    let val = arg.evaluate_to_value(&row);
+                                    entry.1[idx].update_value(agg_fn, val.as_ref())?;
+                                }
+                                None => entry.1[idx].update(agg_fn, &row)?,
+                            }
                         }
                     }
 
